@@ -261,3 +261,68 @@ async fn drive(format: Format, bytes: &[u8], o: &Opts) -> Vec<String> {
         _ => vec![end_eof()],
     }
 }
+
+/// An in-memory async source that hands out at most `chunk` bytes per read and answers `Interrupted` once where
+/// `interrupt_at` says: `Some(p)` = the first read issued when `p` bytes have been delivered (`p == len`: the read
+/// that would report the end of the stream).
+pub struct InterruptingSource<'a> {
+    data: &'a [u8],
+    pos: usize,
+    chunk: usize,
+    interrupt_at: Option<usize>,
+    fired: bool,
+}
+
+impl<'a> InterruptingSource<'a> {
+    pub fn new(data: &'a [u8], chunk: usize, interrupt_at: Option<usize>) -> Self {
+        Self { data, pos: 0, chunk: chunk.max(1), interrupt_at, fired: false }
+    }
+}
+
+impl tokio::io::AsyncRead for InterruptingSource<'_> {
+    fn poll_read(mut self: std::pin::Pin<&mut Self>, _cx: &mut std::task::Context<'_>, buf: &mut tokio::io::ReadBuf<'_>) -> std::task::Poll<io::Result<()>> {
+        if !self.fired && self.interrupt_at == Some(self.pos) {
+            self.fired = true;
+            return std::task::Poll::Ready(Err(io::Error::from(io::ErrorKind::Interrupted)));
+        }
+        let n = self.chunk.min(self.data.len() - self.pos).min(buf.remaining());
+        let (a, b) = (self.pos, self.pos + n);
+        buf.put_slice(&self.data[a..b]);
+        self.pos = b;
+        std::task::Poll::Ready(Ok(()))
+    }
+}
+
+/// The async BAM reader over an UNCOMPRESSED BAM stream (`Reader::from`, no BGZF layer, so the source's answers
+/// reach the record reader directly) delivered by an [`InterruptingSource`]. Log: `header: ok`, `rec[i]: bs=<n>
+/// name=<name>`, `end: …`.
+pub fn bam_raw_async_log(stream: &[u8], chunk: usize, interrupt_at: Option<usize>, cap: usize) -> Vec<String> {
+    block_on(async {
+        let mut log = Vec::new();
+        let mut r = bam::r#async::io::Reader::from(InterruptingSource::new(stream, chunk, interrupt_at));
+        let header = match r.read_header().await {
+            Ok(h) => h,
+            Err(e) => return vec![end_err(&e)],
+        };
+        log.push("header: ok".to_string());
+        let mut rec = sam::alignment::RecordBuf::default();
+        let mut i = 0usize;
+        loop {
+            if i > cap {
+                nonterm(&mut log, "bam::async::io::Reader::read_record_buf (raw)");
+                return log;
+            }
+            match r.read_record_buf(&header, &mut rec).await {
+                Ok(0) => break,
+                Ok(n) => log.push(format!("rec[{i}]: bs={n} name={:?} l_seq={}", rec.name(), rec.sequence().len())),
+                Err(e) => {
+                    log.push(end_err(&e));
+                    return log;
+                }
+            }
+            i += 1;
+        }
+        log.push(end_eof());
+        log
+    })
+}
